@@ -36,6 +36,7 @@ def check(ctx):
     ctx.rule("R-C17.2", "lexer: line / file bookkeeping flows only into token positions and error reports; layout paths write only cursor and position state")
     ctx.rule("R-C17.3", "a parenthesised primary expression returns the inner node itself")
     ctx.rule("R-C17.4", "the generator never reads coordinates or positions")
+    ctx.rule("R-C17.5", "redundant parentheses are redundant for the parser too: its binary precedence order is C's (shared with R-C02.1)")
     spec_entries = A.parse_cfg()
 
     def report(rule, mod, q, node, kind, msg):
@@ -139,6 +140,30 @@ def check(ctx):
     from . import c09
     c09.scanner_sibling_rules(ctx, "R-C17.2", "R-C17.2")   # blanks are skipped by loops everywhere: the amount of white space never reaches a token
     ctx.require_instances("R-C17.2", 20)
+
+    # ---- R-C17.3 / R-C17.5 -------------------------------------------------------------
+    from .. import wiring as W
+    from . import c02
+    px = S.module("c_parser")
+    w = W.of("c_parser", "CParser", "_parse_primary_expression")
+    bare = [(st, d) for st, v, _g, _e in w.returns for d in v if d[0] == "call" and d[1] == "_parse_expression"]
+    wrapped = [s_ for s_ in w.sites if any(d[0] == "call" and d[1] == "_parse_expression" for a in list(s_.node._args) + list(s_.node._kws.values()) for d in a)
+               and not (isinstance(s_.node.func, ast.Attribute) and s_.node.func.attr in W.TOKEN_HELPERS)]
+    ok = bool(bare) and not wrapped
+    ctx.oblige("R-C17.3", "'(' expression ')' returns the inner node", ok, sample={"rule": "R-C17.3", "returns": [S.unparse(st) for st, _ in bare], "wrapping calls": [S.unparse(s_.node)[:80] for s_ in wrapped]})
+    if not ok:
+        ctx.violation("R-C17.3", "paren-wrapper", "the parenthesised primary expression does not return the inner expression node itself (it is wrapped or passed through a call): redundant parentheses leave a trace in the AST",
+                      file=px.rel, function="CParser._parse_primary_expression", line=(wrapped[0].node.lineno if wrapped else w.fn.lineno))
+    holders = {n for n, ds in ((k, v) for _st, _v, _g, env in w.returns for k, v in env.items() if not k.startswith("$")) if any(d[0] == "call" and d[1] == "_parse_expression" for d in ds)}
+    for n in ast.walk(w.fn):
+        if isinstance(n, (ast.Assign, ast.AugAssign)):
+            for t in (n.targets if isinstance(n, ast.Assign) else [n.target]):
+                if isinstance(t, ast.Attribute) and isinstance(t.value, ast.Name) and t.value.id in holders:
+                    ctx.oblige("R-C17.3", f"store on the inner node: {S.unparse(n)}", False)
+                    ctx.violation("R-C17.3", f"paren-mark:{t.attr}", f"`{S.unparse(n)}` marks the node of a parenthesised expression: redundant parentheses change the AST", file=px.rel, function="CParser._parse_primary_expression", line=n.lineno)
+    t_ = S.tables()
+    sp_of = {tt: lit for tt, lit in t_.fixed_tokens}
+    c02.check_table(ctx, t_.binary_precedence, lambda k: sp_of.get(k), "R-C17.5", (px.rel, "_BINARY_PRECEDENCE"), "parser precedence table")
 
     # ---- R-C17.4 ---------------------------------------------------------------------
     gmod = S.module("c_generator")
